@@ -360,6 +360,7 @@ def C15(ctx):
     pool += [p for p in families.locks(ctx.tier, ctx.seed)]
     pool += [p for p in families.waits(ctx.tier, ctx.seed) if families.ops_of(p) & {"park", "unpark"}]
     pool = [p for p in pool if not (families.ops_of(p) & {"yield", "await"})]
+    pool = [p for p in pool if not families.q_mo(p) and not families.q_f16(p)]     # open findings F3/F4/F16: their shapes decide nothing here
     rng.shuffle(pool)
     pool = pool[: (45 if ctx.tier == "quick" else 300)]
     # a thread that holds a park token is still a thread that can continue
@@ -478,6 +479,7 @@ def C19(ctx):
     pool = [p for p in families.litmus(ctx.tier, ctx.seed, avoid=(families.q_mo, families.q_f16)) if len(p["threads"]) <= 3]
     pool += families.syncmix(ctx.tier, ctx.seed)
     pool = [p for p in pool if not (families.ops_of(p) & {"br", "yield", "await", "nwait", "park", "cvwait"})]
+    pool = [p for p in pool if not families.q_mo(p) and not families.q_f16(p)]     # open findings F3/F4/F16: their shapes decide nothing here
     rng.shuffle(pool)
     base = pool[: (16 if ctx.tier == "quick" else 80)]
     U = core.run_loom(ctx, base, cfg_of=lambda p: {"iter_cap": 100000, "want_paths": True, "path_cap": 100000}, tag="unres")
